@@ -1,5 +1,5 @@
 // C20 harness: concurrent independent solver runs vs the same runs one after another.
-//   conc threads=<t> mode=<private|shared> cls=<class> n=<n> nev=<k> ncv=<m> mseed=<s> reps=<r>
+//   conc threads=<t> mode=<private|shared> cls=<class> n=<n> nev=<k> ncv=<m> mseed=<s> reps=<r> [breakdown=1]
 // private: every thread has its own problem / operator / solver (any class of the zoo)
 // shared : all threads construct their solver on ONE matrix-product wrapper object
 //          (cls in SymEigsSolver | GenEigsSolver | SparseSym | SparseGen)
@@ -27,15 +27,17 @@ static Out run_solver(Solver& s, int sel, int sorting)
     return o;
 }
 
-static Out run_private(const std::string& cls, int n, int nev, int ncv, uint64_t mseed)
+static Out run_private(const std::string& cls, int n, int nev, int ncv, uint64_t mseed, bool breakdown = false)
 {
     Problem p = make_problem("gapped", n, mseed, 1.0, 0.37, 0.2);
-    if (is_general(cls)) make_general(p, "gnormal", mseed, 1.0);
+    if (is_general(cls)) make_general(p, breakdown ? "gblock" : "gnormal", mseed, 1.0);
     std::unique_ptr<IRunner> r = make_runner(cls, p, nev, ncv);
     Out o;
     try
     {
-        r->init(); o.ret = r->compute(is_general(cls) ? 0 : 0, 200, 1e-10, 0);
+        // breakdown: the start vector spans a small invariant subspace, so the run goes through Arnoldi::expand_basis (restart code)
+        if (breakdown) r->initv(start_vector(*r, is_general(cls) ? "b" + std::to_string(mseed % 97) : "s" + std::to_string(mseed % 5))); else r->init();
+        o.ret = r->compute(is_general(cls) ? 0 : 0, 200, 1e-10, 0);
         Obs ob; r->snapshot(ob, -1);
         o.niter = ob.niter; o.nops = ob.nops; o.info = ob.info; o.evals = hexvec(ob.evals); o.h = hash_mat(ob.evecs);
     }
@@ -62,9 +64,11 @@ int main()
                 std::vector<Out> seq(T), par(T);
                 if (mode == "private")
                 {
-                    for (int i = 0; i < T; i++) seq[i] = run_private(cls, n, nev, ncv, mseed + i);
+                    const bool bd = m.count("breakdown") > 0;
+                    // with breakdown the threads also use different sizes, so that shared scratch state (if any) would be resized under each other
+                    for (int i = 0; i < T; i++) seq[i] = run_private(cls, n + (bd ? i % 3 : 0), nev, ncv, mseed + i, bd);
                     std::vector<std::thread> th;
-                    for (int i = 0; i < T; i++) th.emplace_back([&, i]() { par[i] = run_private(cls, n, nev, ncv, mseed + i); });
+                    for (int i = 0; i < T; i++) th.emplace_back([&, i]() { par[i] = run_private(cls, n + (bd ? i % 3 : 0), nev, ncv, mseed + i, bd); });
                     for (auto& x : th) x.join();
                 }
                 else
